@@ -115,6 +115,22 @@ func TestEngine(t *testing.T) {
 			})
 		}
 	}
+	if want("C18") {
+		n := run_.N(48, 1200)
+		for i := 0; i < n; i++ {
+			if !run_.Mine(i) {
+				continue
+			}
+			i := i
+			spawn(func() {
+				r := vc.NewRand(run_.Seed, engine+"-deny", uint64(i))
+				sc := genDeny(r)
+				sc.ID = fmt.Sprintf("%s/%d/deny", engine, i)
+				vc.Scn(sc.ID)
+				evalDeny(col, sc, runDeny(sc))
+			})
+		}
+	}
 	if want("C09") {
 		n := run_.N(60, 1500)
 		for i := 0; i < n; i++ {
